@@ -93,7 +93,7 @@ def expected_order(recs, a, b):
     return sorted(sel, key=lambda r: (r["sec"], r["usec"]))      # Python's sort is stable: file order on ties
 
 
-FAMILY = {"utmpx": b"ut_", "utmp": b"ut_", "lastlog": b"ll_", "acct": b"ac_", "acct_v3": b"ac_"}
+FAMILY = {"utmpx": b"ut_", "utmp": b"ut_", "lastlog": b"ll_", "lastlogx": b"ll_", "acct": b"ac_", "acct_v3": b"ac_"}
 
 
 def check_output(stdout, want, has_usec, layout=None):
